@@ -111,6 +111,67 @@ def check(ctx):
     key_availability(ctx, "C11.R2")
     zero_turnout_quotients(ctx, mb, "C11.R3.zero-turnout",
                            "a group created by an unexpected unit with zero two-party votes gets NaN instead of 0")
+    # .. and each key is recovered by ITS parser: county_fips from the county part of the id (second component of a <district>_<county> id,
+    # else the first), district from the first component
+    CDM = "elexmodel.handlers.data.CombinedData"
+    us_ = ctx.builder().summarize(ctx.fn(CDM, "CombinedDataHandler._get_unexpected_units"))
+    SPLIT = ("call", ("attr", ("param", "geographic_unit_fips"), "split"), (("const", "_"),), ())
+    DTYPE = ("cmp", "in", ("const", "district"), ("attr", ("param", "self"), "geographic_unit_type"))
+    LEN_ = ("call", ("global", "len"), (SPLIT,), ())
+
+    def _component(t, n, dflag):
+        """which component of an id with n parts the parser returns (district-type flag dflag): evaluation of its decision tree"""
+        if t[0] == "phi":
+            return _component(t[2] if _truth(t[1], n, dflag) else t[3], n, dflag)
+        if t[0] == "sub" and t[1] == SPLIT and t[2][0] == "const" and isinstance(t[2][1], int):
+            k = t[2][1] if t[2][1] >= 0 else n + t[2][1]
+            if not 0 <= k < n:
+                raise AnalysisError(f"component {t[2][1]} of an id with {n} part(s)")
+            return k
+        raise AnalysisError(f"parser value {ir.show(t, maxdepth=4)} not understood")
+
+    def _truth(c, n, dflag):
+        import operator as _op
+        if c[0] == "bool":
+            vs = [_truth(x, n, dflag) for x in c[2]]
+            return all(vs) if c[1] == "and" else any(vs)
+        if c[0] == "un" and c[1] == "not":
+            return not _truth(c[2], n, dflag)
+        if c == DTYPE:
+            return dflag
+        if c[0] == "cmp" and c[1] == "not in" and c[2:] == DTYPE[2:]:
+            return not dflag
+        if c[0] == "cmp" and c[2] == LEN_ and c[3][0] == "const" and isinstance(c[3][1], int) and c[1] in ("<", "<=", ">", ">=", "==", "!="):
+            return {"<": _op.lt, "<=": _op.le, ">": _op.gt, ">=": _op.ge, "==": _op.eq, "!=": _op.ne}[c[1]](n, c[3][1])
+        raise AnalysisError(f"parser test {ir.show(c, maxdepth=4)} not understood")
+
+    # expected component per (number of parts, district-type unit ids)
+    want_parser = {"county_fips": lambda n, d: 1 if (d and n >= 2) else 0, "district": lambda n, d: 0}
+    for key_, want_ in want_parser.items():
+        vals = {x[3] for t_ in [us_.ret()] for x in ir.walk(t_) if x[0] == "setitem" and x[2] == ("const", key_)}
+        okp, detail_ = bool(vals), f"{key_} is not recovered for unexpected units"
+        for v_ in vals:
+            parser = v_[2][0] if v_[0] == "call" and v_[1][0] == "attr" and v_[1][2] in ("apply", "map") and len(v_[2]) == 1 else None
+            from_id = parser is not None and v_[1][1][0] == "sub" and v_[1][1][2] == ("const", "geographic_unit_fips")
+            body_ = None
+            if parser is not None and parser[0] == "attr" and parser[1] == ("param", "self"):
+                pfn = repo.cls(CDM, "CombinedDataHandler").methods.get(parser[2])
+                body_ = ctx.builder().summarize(pfn).ret() if pfn is not None else None
+            elif parser is not None and parser[0] == "lambda":
+                body_ = ctx.builder().lambda_apply(parser, [("param", "geographic_unit_fips")]) if False else None
+            good = from_id and body_ is not None
+            if good:
+                try:
+                    good = all(_component(body_, n_, d_) == want_(n_, d_) for n_ in (1, 2, 3) for d_ in (False, True))
+                except AnalysisError as ex_:
+                    good = False
+                    body_ = ("const", f"<{ex_}>")
+            okp = okp and good
+            if not good:
+                detail_ = (f"{key_} of an unexpected unit is {ir.show(v_, maxdepth=4)}" + (f" with parser value {ir.show(body_, maxdepth=5)}" if body_ is not None else "")
+                           + ": not the " + ("county part" if key_ == "county_fips" else "first component") + " of its id - its votes are added to another group")
+        ctx.ob("C11.R2.parser", f"CombinedDataHandler._get_unexpected_units|{key_} from its part of the unit id", okp, ctx.fn(CDM, "CombinedDataHandler._get_unexpected_units").where(),
+               f"{key_} is parsed from the unit id by the rule the ids are built with" if okp else detail_)
     # the id parsers that recover the keys of an unexpected unit must be total: ids of units we do not know have no guaranteed
     # shape, so an index >= 1 into the '_'-split id needs a length guard on every path (else IndexError ends the whole run)
     CD_ = "elexmodel.handlers.data.CombinedData"
@@ -127,8 +188,10 @@ def check(ctx):
                 idx = sub.slice.value
                 need = idx + 1 if idx >= 0 else -idx
                 guarded = need <= 1  # split() always returns at least one component
-                for test, pol in pcfg.guards(pcfg.node_of(sub)):
-                    for cmp_ in ast.walk(test):
+                from ..effects import Guards as _Guards
+                # atomic must-hold facts on the way to the read: conjunctions split, a test kept in a local read as the test
+                for test, pol in _Guards(ctx).atoms(pf, util.enclosing_stmt(sub)):
+                    for cmp_ in ([test] if isinstance(test, ast.Compare) else []):
                         if not (isinstance(cmp_, ast.Compare) and len(cmp_.ops) == 1):
                             continue
                         lhs, op, rhs = cmp_.left, type(cmp_.ops[0]), cmp_.comparators[0]
